@@ -44,7 +44,7 @@ theorem override_sticky (E : Engine) (d : Defects) (cx : Ctx) (t : Nat) (sf : Re
     unfold readStamp existsF at *
     cases h : w.fs t <;> simp_all
   have hex' : (w.fs t).isSome = true := hex
-  simp [startSelf, hg, ho, hns, hex', existsF, setRec, ranIn, ev]
+  simp [startSelf, hg, ho, hns, hex', existsF, setRec, ranIn, ev, setOverride]
 
 /-- The dirtiness check (used by every command, and by `redo-ood`) never touches a file. -/
 theorem check_never_writes_files (ood : Bool) (R fuel : Nat) (w : World) (c : List Nat) (f mx : Nat) (seen : List Nat) :
